@@ -222,3 +222,37 @@ Proof.
     + apply IZR_lt. lia.
     + change (bpow radix2 emax) with (IZR (2 ^ 1024)). apply IZR_lt. reflexivity.
 Qed.
+
+(** ** Literals: value and finiteness of a float constant, by computation of its decomposition *)
+Lemma lit_fin x s m e : Prim2SF x = SpecFloat.S754_finite s m e -> fin x.
+Proof. intros H. unfold fin, Prim2B. rewrite is_finite_SF2B. rewrite H. reflexivity. Qed.
+Lemma lit_RV x s m e : Prim2SF x = SpecFloat.S754_finite s m e ->
+  RV x = F2R (Float radix2 (cond_Zopp s (Z.pos m)) e).
+Proof. intros H. unfold RV, Prim2B. rewrite B2R_SF2B. rewrite H. reflexivity. Qed.
+Lemma zero_fin : fin 0%float.
+Proof. unfold fin, Prim2B. rewrite is_finite_SF2B. reflexivity. Qed.
+Lemma zero_RV : RV 0%float = 0.
+Proof. unfold RV, Prim2B. rewrite B2R_SF2B. reflexivity. Qed.
+
+(** turns [RV <literal> = <rational>] into linear arithmetic over constants *)
+Ltac lit_value :=
+  match goal with
+  | |- RV ?c = _ =>
+      rewrite (lit_RV c _ _ _ eq_refl); unfold F2R; simpl;
+      repeat match goal with
+      | |- context [Z.pow_pos ?a ?b] =>
+          let v := eval vm_compute in (Z.pow_pos a b) in change (Z.pow_pos a b) with v
+      end; lra
+  end.
+
+(** multiplication by a non-negative finite constant is monotone whatever the sign of the other factor *)
+Lemma mul_mono_l M c y y' : okbound M -> fin c -> 0 <= RV c ->
+  fle y y' -> Rabs (RV c * RV y) <= M -> Rabs (RV c * RV y') <= M ->
+  fle (PrimFloat.mul c y) (PrimFloat.mul c y').
+Proof.
+  intros HM Fc Pc [Fy [Fy' Hy]] B1 B2.
+  destruct (mul_fin c y Fc Fy (below_top _ _ HM B1)) as [F1 E1].
+  destruct (mul_fin c y' Fc Fy' (below_top _ _ HM B2)) as [F2 E2].
+  split; [exact F1|split; [exact F2|]]. rewrite E1, E2. apply rnd_le.
+  apply Rmult_le_compat_l; assumption.
+Qed.
